@@ -153,6 +153,11 @@ func (s *Stump) add(adds []Hash) ([]Hash, []uint64, []uint64) {
 			}
 		}
 
+		// Always record the added leaf at its final position. A leaf that
+		// doesn't get hashed with another root (it ends up as a root itself)
+		// would otherwise be missing from the returned update data.
+		updatedNodes[add] = pos
+
 		// We can tell where the roots are by looking at the binary representation
 		// of the numLeaves. Wherever there's a 1, there's a root.
 		//
